@@ -158,7 +158,9 @@ func (r *histRun) seedRunning() {
 	if mode >= 2 {
 		// overlapping with the intent pool (incl. the key leaves a device would report)
 		for _, l := range r.h.pool {
-			if l.Kind == "ll" || l.Kind == "empty" {
+			if l.Kind == "ll" || l.Kind == "empty" || isChoiceMember(l.XPath) {
+				// (a device never holds unmanaged nodes of a choice next to what intents configure in another case:
+				// what the server owes such nodes is not stated by any property)
 				continue
 			}
 			if r.rng.Chance(1, 4) {
